@@ -158,6 +158,7 @@ UNENCODABLE = [
 
 
 class C17:
+    rule_extra = ('Later additions: read-only metafiles, fault sequences over two edits in one process, descriptor-level primitives (fchmod, ftruncate, os.write) and silent short writes on os.write and on unbuffered file objects.')
     id = "C17"
     level = "fault_enumeration"
     quick, thorough = 48, 720
@@ -398,6 +399,7 @@ def _audit_paths_outside_dev(events):
 
 
 class C18:
+    rule_extra = ('Later additions: empty files at the probe / output path, creates that fail (invalid piece length) or meet metadata that cannot be encoded (lone surrogates in --comment, non-UTF-8 file names), rename targets that are directories, names near NAME_MAX, hard-link / symlink aliases of the metafile.')
     id = "C18"
     quick, thorough = 1500, 30000
     timeout = 120
@@ -434,6 +436,15 @@ class C18:
                 # that is not UTF-8): whether create copes or fails, it may not leave anything but its output behind
                 case["fail"] = rng.choice(["comment-unencodable", "name-unencodable"])
             case["pl"] = rng.choice([None, 14, 16384, 15])
+            if rng.random() < 0.08:
+                # the output lands NEXT TO the payload (-o <payload's parent>/) and the payload is itself called
+                # like a metafile: the default name must not collide with what is being described
+                case["out"] = "payload-parent"
+                case["preexisting"] = None
+                if rng.random() < 0.7:
+                    nm = rng.choice(["backup.torrent", "x.torrent", "a.b.torrent"])
+                    case["tree"] = {"name": nm, "single": True, "files": [[nm, rng.choice([5, 20000, 40000]), rng.randrange(1 << 30)]],
+                                    "dirs": [], "layout": "single"}
             case["align"] = rng.random() < 0.2
             case["magnet"] = rng.random() < 0.2
         if cmd == "rename":
@@ -584,6 +595,11 @@ class C18:
                 argv += ["-o", outp]
                 probe = None
                 outrel = "outdir/o.torrent"
+            elif case["out"] == "payload-parent":
+                argv += ["-o", base + "/"]
+                probe = os.path.join(base, ".torrent")
+                outrel = "content/" + tree["name"] + ".torrent"
+                counters["output_next_to_payload_cases"] = 1
             elif case["out"] == "dir":
                 argv += ["-o", os.path.join(sb, "outdir") + "/"]
                 probe = os.path.join(sb, "outdir", ".torrent")
